@@ -69,6 +69,7 @@ class UnitRun:
         self.trusted = []
         self.wall_s = 0.0
         self.obligations = []
+        self.invalid = False      # the verifier did not run to completion on this unit: nothing counts as discharged
 
     def all_obligations(self):
         return [o for n in self.g.order for o in self.g.fns[n].obligations]
@@ -144,6 +145,8 @@ def run_unit(unit, seed=0, canary=True, rlimit=None):
         res = jobs['main'].result()
         cres = jobs['canary'].result() if 'canary' in jobs else None
     u.res = res
+    if res.tool_errors or res.exit not in (0, 1) or res.rlimit:
+        u.invalid = True
     if res.tool_errors:
         for te in res.tool_errors[:5]:
             loc = ''
@@ -234,7 +237,7 @@ def classify(unit_runs, prop, baseline, known):
                         out['violations'].append((o, d, u))
                     else:
                         out['unbaselined'].append((o, d, u))
-            elif fkey in failed_fns:
+            elif u.invalid or fkey in failed_fns:
                 # function has failures: clauses not mentioned are NOT counted as discharged
                 pass
             else:
